@@ -11,6 +11,18 @@ CHECKS={
  "C02": dict(tech="exhaustive token-class enumeration + nesting ladders + proptest-generated prefixes/soups; crash oracle in sandboxed worker processes (panic capture, signal = stack overflow, watchdog)", engine="sandbox",
    text="Exploration: same enumerated space as C01 without depth cap, all corpus prefixes, 20 recursive-construct ladders to depth 2^14 with 0/half/all closers, random mixed stacks, token soup. Each worker is a child process: a panic is caught and attributed, a signal (stack overflow) or a stalled case is confirmed by re-running the marked case alone before it is reported.",
    note="Stack budget 2 MiB for deep cases (tokio blocking pool); timing limits 20 s/200 s; known finding C02-F1 (left-nested trees > ~20000 levels abort inside rowan) is excluded by construction and its witness replayed.", ref="DESIGN.md §5 C02"),
+ "C03": dict(tech="exhaustive single token edits on 16 body templates x 8 followers + sampled/exhaustive edit pairs + proptest-generated multi-definition files; metamorphic damage-locality oracle", engine="inproc",
+   text="Exploration: every (position, non-opening token class, insert/replace/delete) edit of 16 victim bodies chosen to hit each recovery loop of the parser, in front of 8 different following definitions; edit pairs; generated files with up to 3 edits. The oracle compares the untouched definitions (kind, text, position) with the undamaged parse, forbids top-level nodes straddling the victim and errors outside it.",
+   note="'At least one error is reported' is not checked; body = strictly between the outermost braces; braces are never edited.", ref="DESIGN.md §5 C03"),
+ "C04": dict(tech="exhaustive operator triples/pairs x operand forms + proptest-generated modules from a reference grammar with random trivia; reference-model oracle (precedence climbing, structural shape comparison)", engine="inproc",
+   text="Exploration: all 23^3 binary-operator triples x 4 operand forms and all pairs x 4^3 forms are printed flat and must parse to the tree that precedence climbing over Gleam's documented table gives; 150k/3M generated modules covering every item/statement/expression/pattern/type form must parse error-free into exactly the generator's shape.",
+   note="The reference grammar is mine (written from the Gleam reference); constructs behind known findings (chained tuple index) are excluded and counted; the extractor is structural and does not vouch for typed accessors on HOLE.", ref="DESIGN.md §5 C04"),
+ "C13": dict(tech="exhaustive single edits over small documents + proptest-generated edit histories; reference-model oracle (LSP client document)", engine="inproc",
+   text="Exploration: all documents <=4/5 symbols over {a, LF, CRLF, 2/3/4-byte chars} x all valid position pairs x all replacements <=2 symbols through the hooked Vfs/convert calls the server makes per change, plus generated histories of up to 20 changes with full replacements mixed in, compared with an independent client-document model after every change.",
+   note="In-process tiers replay the per-change calls of on_did_change through the `verif` hook; lone CR is outside the property's domain.", ref="DESIGN.md §5 C13"),
+ "C14": dict(tech="exhaustive enumeration of small documents x boundaries x boundary pairs + proptest-generated long documents; round-trip, monotonicity and reference-model oracle", engine="inproc",
+   text="Exploration: all documents <=6/8 symbols over {a, LF, 2/3/4-byte chars}: offset->position->offset identity, strict monotonicity, agreement with an independent UTF-16 client model at every boundary, and client-side slice equality for every ordered boundary pair; long random documents with sampled pairs.",
+   note="Conversions reached through the `verif` hook wrappers around the crate-private functions every handler uses.", ref="DESIGN.md §5 C14"),
 }
 
 NOT_YET={}
